@@ -474,6 +474,56 @@ def run(ctx):
     # the capability bits themselves: what a name means is fixed by the protocol
     flag_values(ctx, 'C04.4-flag-values')
 
+    # "the digest of the cookie" means the cookie the caller configured, byte for byte
+    ctx.rule('C04.3-cookie-verbatim', 'the cookie travels from the caller to the digest unchanged: every struct field named `cookie` (connection configuration, handshake state machine, node) is initialised from the '
+             'constructor parameter through ownership conversions only (into / to_string / to_owned / clone / String::from / as_ref), and so is every `cookie` argument passed on; '
+             'trimming, case folding or any other rewriting makes both sides prove a different secret than the one configured', floor=2)
+    from ..families import operand_chain as _chain
+    _OKCONV = ('::into', '::to_string', '::to_owned', '::clone', '::from', '::as_ref', '::as_str', '::deref', '::borrow', '::to_vec', '::into_boxed_str', '::as_bytes')
+    n_ck = 0
+
+    def _cookie_ok(B_, op):
+        ch = _chain(B_, op)
+        foreign = [c_ for c_ in ch if c_ and not any(str(c_).endswith(x) or (x + '<') in str(c_) for x in _OKCONV) and not str(c_).endswith('Into<U>>::into')]
+        return foreign
+    for q in sorted(ctx.F.bodies):
+        if not (q.startswith('edp_client::') or q.startswith('edp_node::') or q.startswith('<edp_client::') or q.startswith('<edp_node::')):
+            continue
+        if 'control::' in q:
+            continue      # the `cookie` element of SEND / REG_SEND control tuples is another thing (an unused atom)
+        KB = P.B(q)
+        if KB is None:
+            continue
+        for bb, j, st in KB.stmts():
+            if st['k'] == '=' and st['rv']['k'] == 'agg' and st['rv'].get('fn') and 'cookie' in st['rv']['fn'] and 'ControlMessage' not in str(st['rv'].get('adt')):
+                op = st['rv']['ops'][st['rv']['fn'].index('cookie')]
+                n_ck += 1
+                inst = '%s:%s.cookie' % (q.split('::{')[0].rsplit('::', 2)[-2] + '::' + q.split('::{')[0].rsplit('::', 1)[-1], str(st['rv'].get('adt')).rsplit('::', 1)[-1])
+                foreign = _cookie_ok(KB, op)
+                if foreign:
+                    ctx.bad('C04.3-cookie-verbatim', inst, 'the cookie stored here has been through %s: the digests are computed over a rewritten cookie, not the configured one' % ', '.join(str(x).rsplit('::', 1)[-1] for x in foreign),
+                            ctx.where(KB, ln=st['ln']), key='PROV:%s:cookie-rewritten' % q.split('::{')[0])
+                else:
+                    ctx.ok('C04.3-cookie-verbatim', inst, 'parameter stored as given', ctx.where(KB, ln=st['ln']))
+        for bb, t in KB.calls():
+            g = callee_of(t)[0] or ''
+            cb = ctx.F.bodies.get(g)
+            if not cb or not (g.startswith('edp_client::') or g.startswith('edp_node::')) or 'control::' in g:
+                continue
+            names = [cb['locals'][i].get('n') for i in range(1, cb.get('argc', 0) + 1)]
+            if 'cookie' not in names or len(t['args']) != len(names):
+                continue
+            op = t['args'][names.index('cookie')]
+            n_ck += 1
+            inst = '%s->%s(cookie)' % (q.split('::{')[0].rsplit('::', 1)[-1], g.rsplit('::', 2)[-2] + '::' + g.rsplit('::', 1)[-1])
+            foreign = _cookie_ok(KB, op)
+            if foreign:
+                ctx.bad('C04.3-cookie-verbatim', inst, 'the cookie passed on here has been through %s' % ', '.join(str(x).rsplit('::', 1)[-1] for x in foreign), ctx.where(KB, bb),
+                        key='PROV:%s:cookie-rewritten-at-call:%s' % (q.split('::{')[0], g.rsplit('::', 1)[-1]))
+            else:
+                ctx.ok('C04.3-cookie-verbatim', inst, 'passed on as held', ctx.where(KB, bb))
+    ctx.anchor(n_ck >= 2, 'cookie fields / arguments in edp_client and edp_node')
+
 
 def check_digest(ctx):
     B = ctx.body('edp_client::digest::compute_digest')
